@@ -16,6 +16,7 @@ let () =
     | "tool" -> H_tool.tool_case
     | "xml" -> H_xml.xml_case
     | "faults" -> H_faults.faults_case
+    | "code" -> H_code.code_case
     | _ -> failwith ("unknown model " ^ sub) in
   (try
     while true do
